@@ -53,6 +53,8 @@ BOUNDS = {
                              "worker 0 retires mid-call, create() of its successor sleeps 1.0 s and is still running "
                              "when the call ends; second call of 3..4 chunks needs further replacements "
                              "(deterministic form of F3)",
+                             "exact retirement of all workers at the end of call 0 with their wids posted 0.5 s "
+                             "late (after the replace thread was stopped), then a call that needs them replaced",
                              "delayed feeder in the first call, normal second call (F1 leak into the next call)",
                              "slow exhaustion in the first call, then a second call"],
     },
@@ -115,6 +117,13 @@ def cases(tier, seed):
                "calls": [{"ordered": True, "n": 4, "cs": 1, "base": 10, "pause_after": pause},
                          {"ordered": True, "n": 0, "cs": 1, "base": 110},
                          {"ordered": True, "n": 5, "cs": 1, "base": 210}]}
+    # exact retirement with the wids arriving after the call has ended: the next call must replace the workers
+    for wq, pause in itertools.product((1.0, None), (0.0, 0.8)):
+        yield {"kind": "retire-at-end-late-wid",
+               "cfg": {"pool": "factory", "workers": 2, "wq": wq, "rq": None, "quota": 1, "wid_delay": 0.5,
+                       "wait_ready": True, "item_s": 0.05},
+               "calls": [{"ordered": True, "n": 2, "cs": 1, "base": 10, "pause_after": pause},
+                         {"ordered": False, "n": 3, "cs": 1, "base": 110}]}
     for ordered in (True, False):
         yield {"kind": "delayed-feeder-then-call", "cfg": POOLS[0],
                "calls": [{"ordered": ordered, "n": 5, "cs": 2, "base": 10, "feeder_delay": 0.3, "settle": 0.3},
